@@ -17,7 +17,7 @@
 //   out                           l2cap_output -> rsp=<hex> st=<state> disp=-
 //   enc <0|1>                     link encryption state
 //   user <sync1|sync0|async>      how the yes/no callback answers
-//   answer <0|1>                  deferred yes_no_response(); only in user_response_wait ("illegal" otherwise)
+//   answer <0|1>                  deferred yes_no_response(); only in user_response_wait[_dhkey_verified] ("illegal" otherwise)
 //   kbd <n>                       value returned by the keyboard callback sm_pairing_passkey()
 //   oob <0|1> <hex16>             what sm_oob_authentication_data() returns
 //   findkey <ediv> <rand>         connection_data.find_key -> key=<hex|-> st=<state>
@@ -223,9 +223,18 @@ struct db_t
 // ---------------------------------------------------------------------------------------------
 // type erased security manager instance
 // ---------------------------------------------------------------------------------------------
+// `user_response_wait_dhkey_verified` exists since fix sm-01 only; the harness has to build against
+// the repository with and without that fix
+template < class E >
+static constexpr auto wait_verified_state( int ) -> decltype( E::user_response_wait_dhkey_verified ) { return E::user_response_wait_dhkey_verified; }
+template < class E >
+static constexpr E wait_verified_state( long ) { return static_cast< E >( 0xff ); }
+
 static const char* state_name( bluetoe::details::sm_pairing_state s )
 {
     using bluetoe::details::sm_pairing_state;
+    if ( s == wait_verified_state< sm_pairing_state >( 0 ) )
+        return "user_wait_dhkey_verified";
     switch ( s )
     {
     case sm_pairing_state::idle: return "idle";
@@ -239,6 +248,7 @@ static const char* state_name( bluetoe::details::sm_pairing_state s )
     case sm_pairing_state::lesc_public_keys_exchanged: return "lesc_keys_exchanged";
     case sm_pairing_state::lesc_pairing_confirm_send: return "lesc_confirm_send";
     case sm_pairing_state::lesc_pairing_random_exchanged: return "lesc_random_exchanged";
+    default: break;
     }
     return "invalid";
 }
@@ -325,7 +335,11 @@ struct inst : sm_if
 
     const char* state() const override { return state_name( con->state() ); }
 
-    bool waiting() const override { return con->state() == bluetoe::details::sm_pairing_state::user_response_wait; }
+    bool waiting() const override
+    {
+        return con->state() == bluetoe::details::sm_pairing_state::user_response_wait
+            || con->state() == wait_verified_state< bluetoe::details::sm_pairing_state >( 0 );
+    }
 };
 
 typedef bluetoe::oob_authentication_callback< oob_t, oob >  o_oob;
@@ -414,7 +428,7 @@ int main()
         }
         if ( w[ 0 ] == "answer" && w.size() == 2 && ( w[ 1 ] == "0" || w[ 1 ] == "1" ) )
         {
-            // yes_no_response() asserts state == user_response_wait: everything else is a contract
+            // yes_no_response() asserts that the user is being asked: everything else is a contract
             // violation of the user, not an input of the security manager
             if ( !sm->waiting() || !io.pending ) return "illegal";
             io.pending->yes_no_response( w[ 1 ] == "1" );
